@@ -90,8 +90,8 @@ func UDP(sp, dp int, length int, payload []byte) []byte {
 	return append(h, payload...)
 }
 
-// TCP builds a header with data offset doff (32-bit words; 0 = 5) followed by payload.
-func TCP(sp, dp int, doff int, flags byte, payload []byte) []byte {
+// TCP builds a header with data offset doff (32-bit words; 0 = 5) followed by payload; rsv = low nibble of byte 12.
+func TCP(sp, dp int, doff int, flags byte, payload []byte, rsv ...int) []byte {
 	if doff == 0 {
 		doff = 5
 	}
@@ -101,6 +101,9 @@ func TCP(sp, dp int, doff int, flags byte, payload []byte) []byte {
 	binary.BigEndian.PutUint32(h[4:], 0x01020304)
 	binary.BigEndian.PutUint32(h[8:], 0x05060708)
 	h[12] = byte(doff << 4)
+	if len(rsv) > 0 {
+		h[12] |= byte(rsv[0] & 0x0f) // reserved bits / NS
+	}
 	h[13] = flags
 	binary.BigEndian.PutUint16(h[14:], 0xffff)
 	for len(h) < doff*4 && len(h) < 60 {
